@@ -31,6 +31,9 @@ func H_C13_idem() {
 	e := st.E
 	preL := ReadLedger(e)
 	preTok, _ := e.K.GetAssetByDenom(e.Ctx, Denoms[0])
+	preDel, _ := e.K.GetDelegation(e.Ctx, Dels[0], Vals[0], Denoms[0])
+	preStake := stakeBal(e, 0)
+	tokens := math.LegacyNewDecFromInt(types.GetDelegationTokens(preDel, AV(e, Vals[0]), preTok).Amount)
 	var err error
 	if Caught(func() { _, err = e.K.ClaimDelegationRewards(e.Ctx, Dels[0], AV(e, Vals[0]), Denoms[0]) }) || err != nil {
 		return
@@ -38,6 +41,14 @@ func H_C13_idem() {
 	nd.Reach(id)
 	del, _ := e.K.GetDelegation(e.Ctx, Dels[0], Vals[0], Denoms[0])
 	info, _ := e.K.GetAllianceValidatorInfo(e.Ctx, Vals[0])
+	// rounded down: the payout never exceeds the exact entitlement (index gap x position tokens)
+	if len(preDel.RewardHistory) == 1 && len(info.GlobalRewardHistory) == 1 && preDel.RewardHistory[0].Denom == env.BondDenom &&
+		info.GlobalRewardHistory[0].Denom == env.BondDenom && preDel.RewardHistory[0].Alliance == Denoms[0] && info.GlobalRewardHistory[0].Alliance == Denoms[0] {
+		gap := info.GlobalRewardHistory[0].Index.Sub(preDel.RewardHistory[0].Index)
+		if gap.IsPositive() {
+			nd.Assert(id+".floor", math.LegacyNewDecFromInt(stakeBal(e, 0).Sub(preStake)).LTE(gap.Mul(tokens)))
+		}
+	}
 	nd.Assert(id+".history", histEqual(types.NewRewardHistories(info.GlobalRewardHistory).GetIndexByAlliance(Denoms[0]), del.RewardHistory))
 	// neutral: no share or token quantity moved
 	postL := ReadLedger(e)
